@@ -207,6 +207,8 @@ func c16Jobs(c *pure.Ctx) {
 			break
 		}
 	}
+	// states = distinct admitted request shapes; transitions = admission steps (create, resubmit) executed on the real webhook
+	c.SetStates(c.Distinct())
 }
 
 func c16JudgeJob(c *pure.Ctx, b *mc.Base, jcs map[string]*execution.JobConfig, desc string, pick map[string]string, raw []byte, res admitResult) {
@@ -549,6 +551,7 @@ func c16JobConfigs(c *pure.Ctx) {
 			}
 		}
 	}
+	c.SetStates(c.Distinct())
 }
 
 func canonJC(raw []byte) string {
